@@ -46,6 +46,13 @@ def check_dsl_positions(ctx, docs, label):
             if msg == "extend can only be used in a modular model":
                 kind = "extend"
                 rest = d.split("\n")[line][:col]
+                # in a document that also has syntax errors ANTLR's recovery can attach a stray 'extend' token to a
+                # type declaration that does not start with it: the listener then reports the type's name, which is
+                # where the name stands, but "extend type" need not precede it — the textual test below is for
+                # documents that parse (the property's exact-position clause is about injected conflicts in valid text)
+                if a[0] != "listener":
+                    ctx.count(label + "_extend_error_after_recovery")
+                    continue
                 if not re.search(r"extend[ \t\f]+type[ \t\f]+$", rest):
                     ctx.violation("position-not-on-name", {"input": S(d), "text": d, "error": [line, col, msg],
                                                            "why": "the error does not point at the name of the extended type"})
